@@ -91,6 +91,11 @@ META = {
                    'C15X_dispatcher_writes_only_creator are proved; the full ordering statement '
                    'C15X_created_start_after_all_full is stated, not proved: it is evaluated by the driver on the '
                    'accepting model run of every such case and by the monitor obeyOK on every implementation trace.  '
+                   'Both systems mirror TaskDispatcher.inherited_status (repair of finding C05 delayed-group-subtasks-run: '
+                   'the node of a created task inherits the bad_deps of the placeholder node through which its creator '
+                   'was evaluated; Sys.inherited, mkNodeI; theorem inherited_unmet_not_started) and the monitor obeyOK '
+                   'requires a good report of the creator\'s `executed` task before the start of any created task: '
+                   'the check REQUIRES that repair in doit.  '
                    'The model is tied to doit on every run by trace acceptance.'),
     'level_note': ('created_obey is proved without extra hypotheses for the node-held Task objects and under noRedefB '
                    '(evaluated on every case: hyp:noredef) for TaskControl.tasks; self.tasks[nt.name] = nt has no '
